@@ -230,27 +230,69 @@ Example C12_example_failed_write :
 Proof. vm_compute. repeat split. Qed.
 
 (* ---- the codec half: the section variables instantiated with the models of mila's two codecs ---- *)
-(* the round-trip law holds for the real codecs (C08_library_round_trip, C09_library_round_trip, C09_empty_input),
-   on every byte string shorter than 16 MiB - the empty payload included - whatever profile wrote and reads *)
-Theorem C12_real_codec_round_trip : forall mc md f b c,
-  wfb b -> lenN b < 2 ^ 24 -> real_compress mc f b = Ok c -> real_decompress md f c = Ok b.
-Proof. intros mc md f b c Hw Hn. exact (real_codec_round_trip mc md f b c (conj Hw Hn)). Qed.
+(* After the repair of F21 both compressors reject a payload whose length their size field cannot store (LZ10: 2^24
+   bytes and more, LZ13: 2^32 bytes and more) with Err(InputTooLarge).  So NO size bound is imposed anywhere below:
+   "the write succeeded" is the size condition for a compressed name, and for a name without the game's suffix no codec
+   runs at all (review point C12-3).
+   LZ13 payloads between 2^31 and 2^32 bytes: [real_compress] is built on the list model of calculate_lz13_header,
+   proved equal to the machine-level model only below 2^31 bytes; the two can differ there only in the three wrapper
+   length bytes, which the decoder never reads, and C09_round_trip_machine proves the same round trip for the
+   machine-level model - the conclusions below do not depend on those bytes. *)
 
-(* read after write with LZ10 (FE9/FE10) and LZ13 (FE13-FE15) *)
+(* the round-trip law holds for the real codecs on EVERY byte string compress accepts (C08_round_trip_of_every_success,
+   C09_round_trip_below_4GiB / C09_exported), whatever profile wrote and reads *)
+Theorem C12_real_codec_round_trip : forall mc md f b c,
+  wfb b -> real_compress mc f b = Ok c -> real_decompress md f c = Ok b.
+Proof. exact (fun mc md f b c Hw Hc => real_codec_round_trip mc md f b c Hw Hc). Qed.
+
+(* read after write with LZ10 (FE9/FE10) and LZ13 (FE13-FE15): every byte payload of every successful write, compressed
+   name or not, any game - no size hypothesis *)
 Theorem C12_read_after_write_real : forall mc md S p b loc S',
-  fs_write (real_compress mc) S p b loc = (S', FOk tt) -> wfb b -> lenN b < 2 ^ 24 ->
+  fs_write (real_compress mc) S p b loc = (S', FOk tt) -> wfb b ->
   fs_read (real_decompress md) S' p loc = FOk b.
-Proof. exact real_read_after_write. Qed.
+Proof. exact real_read_after_write_any. Qed.
+
+(* compression fails exactly when the format's size field cannot store the length, with InputTooLarge *)
+Theorem C12_real_compress_total : forall mc f b,
+  (lenN b < codec_limit f -> exists c, real_compress mc f b = Ok c) /\
+  (codec_limit f <= lenN b -> real_compress mc f b = Err ETooLarge).
+Proof. exact real_compress_total. Qed.
+
+(* a payload too large for the configured format, written to a name with the compressed suffix: the write fails with
+   the compression error and the state is UNCHANGED (F21: before the repair an FE9/FE10 write of 2^24+5 bytes to
+   "x.cmp" returned Ok, stored the size 5, and read back 20 bytes) *)
+Theorem C12_write_too_large_fails : forall mc S p b loc,
+  is_compressed (c_comp (conf S)) p = true -> codec_limit (c_comp (conf S)) <= lenN b ->
+  fst (fs_write (real_compress mc) S p b loc) = S /\
+  snd (fs_write (real_compress mc) S p b loc) <> FOk tt /\
+  (forall sa, fs_addr S p loc = FOk sa ->
+     fs_write (real_compress mc) S p b loc = (S, FErr (ECompression ETooLarge))).
+Proof. exact real_write_too_large. Qed.
+
+Theorem C12_write_too_large_fails_fe9_fe10 : forall mc ls l g S p b loc,
+  fs_new ls l g = FOk S -> (g = FE9 \/ g = FE10) ->
+  orb (ends_with sfx_cms p) (ends_with sfx_cmp p) = true -> 2 ^ 24 <= lenN b ->
+  fst (fs_write (real_compress mc) S p b loc) = S /\
+  snd (fs_write (real_compress mc) S p b loc) <> FOk tt /\
+  (forall sa, fs_addr S p loc = FOk sa -> fs_write (real_compress mc) S p b loc = (S, FErr (ECompression ETooLarge))).
+Proof. exact real_write_too_large_lz10. Qed.
+
+(* a name without the game's compressed suffix is stored as it is, whatever its size: no codec runs *)
+Theorem C12_plain_name_no_codec : forall mc S p b, is_compressed (c_comp (conf S)) p = false ->
+  encode_by_name (real_compress mc) S p b = FOk b.
+Proof. exact real_encode_plain. Qed.
 
 (* the stored file: a valid compressed stream of the payload for a name with the game's suffix (LZ10: the strict
    parser accepts it with the payload's size and its tokens expand to the payload; LZ13: 0x13 wrapper + such an LZ11
-   stream, the fixed 12-byte form for the empty payload), the payload itself otherwise *)
+   stream, the fixed 12-byte form for the empty payload) - and then the payload is below the format's limit -,
+   the payload itself otherwise *)
 Theorem C12_stored_stream_real : forall mc S p b loc S',
-  fs_write (real_compress mc) S p b loc = (S', FOk tt) -> wfb b -> lenN b < 2 ^ 24 ->
+  fs_write (real_compress mc) S p b loc = (S', FOk tt) -> wfb b ->
   exists s pp c, fs_addr S p loc = FOk (s, (pp, false)) /\
     l_get (last (layers S') []) pp = Some (File c) /\
-    if is_compressed (c_comp (conf S)) p then valid_stream (c_comp (conf S)) b c else c = b.
-Proof. exact real_write_stored. Qed.
+    if is_compressed (c_comp (conf S)) p
+    then valid_stream (c_comp (conf S)) b c /\ lenN b < codec_limit (c_comp (conf S)) else c = b.
+Proof. exact real_write_stored_any. Qed.
 
 (* the codec never makes a write of a payload below 16 MiB fail *)
 Theorem C12_encode_never_fails_real : forall mc S p b, lenN b < 2 ^ 24 ->
@@ -263,12 +305,12 @@ Theorem C12_codec_of_game : forall ls l g S, fs_new ls l g = FOk S ->
   | FE9 | FE10 =>
     c_comp (conf S) = LayeredFS.LZ10 /\
     (forall p, is_compressed (c_comp (conf S)) p = orb (ends_with sfx_cms p) (ends_with sfx_cmp p)) /\
-    (forall mc b, real_compress mc (c_comp (conf S)) b = Ok (compress10 b)) /\
+    (forall mc b, real_compress mc (c_comp (conf S)) b = compress10_o b) /\
     (forall md c, real_decompress md (c_comp (conf S)) c = lz10_decompress md c)
   | FE13 | FE14 | FE15 =>
     c_comp (conf S) = LayeredFS.LZ13 /\
     (forall p, is_compressed (c_comp (conf S)) p = ends_with sfx_lz p) /\
-    (forall mc b, real_compress mc (c_comp (conf S)) b = compress13 mc b) /\
+    (forall mc b, real_compress mc (c_comp (conf S)) b = compress13_o mc b) /\
     (forall md c, real_decompress md (c_comp (conf S)) c = lz13_decompress md c)
   | FE11 | FE12 => False
   end.
@@ -277,7 +319,7 @@ Proof. exact real_codec_of_game. Qed.
 (* everything together, per game *)
 Theorem C12_read_after_write_by_game : forall mc md ls l g S p b loc S',
   fs_new ls l g = FOk S ->
-  fs_write (real_compress mc) S p b loc = (S', FOk tt) -> wfb b -> lenN b < 2 ^ 24 ->
+  fs_write (real_compress mc) S p b loc = (S', FOk tt) -> wfb b ->
   fs_read (real_decompress md) S' p loc = FOk b /\
   exists s pp c, fs_addr S p loc = FOk (s, (pp, false)) /\ l_get (last (layers S') []) pp = Some (File c) /\
     match g with
@@ -285,7 +327,7 @@ Theorem C12_read_after_write_by_game : forall mc md ls l g S p b loc S',
                     then valid_stream LayeredFS.LZ10 b c /\ lz10_decompress md c = Ok b else c = b
     | _ => if ends_with sfx_lz p then valid_stream LayeredFS.LZ13 b c /\ lz13_decompress md c = Ok b else c = b
     end.
-Proof. exact real_read_after_write_by_game. Qed.
+Proof. exact real_read_after_write_by_game_any. Qed.
 
 (* non-vacuity: FE10 writes "a.cmp" as an LZ10 stream, FE14 writes "a.lz" as a wrapped LZ11 stream; read back in the other profile *)
 Example C12_example_real_fe10 :
@@ -500,10 +542,12 @@ Theorem C12_e2e_read_arc : forall mc md S p loc f c fl S',
 Proof. exact e2e_read_arc. Qed.
 Theorem C12_e2e_read_ctpk : forall mc md S p loc f texs S',
   write_file mc S p f loc = (S', FOk tt) -> wfb f -> lenN f < 2 ^ 24 -> TexFormat.conforms_ctpk f texs ->
+  Forall TexCommon.f32_exact texs ->       (* the reader's f32 payload-size request is exact (see Properties/C20.v) *)
   read_ctpk_textures md S' p loc = lift_parse (as_map (TexCommon.decode_all (TexCommon.decode_tex md) texs)).
 Proof. exact e2e_read_ctpk. Qed.
 Theorem C12_e2e_read_bch : forall mc md S p loc f texs S',
   write_file mc S p f loc = (S', FOk tt) -> wfb f -> lenN f < 2 ^ 24 -> TexFormat.conforms_bch f texs ->
+  Forall TexCommon.f32_exact texs ->
   read_bch_textures md S' p loc = lift_parse (as_map (TexCommon.decode_all (TexCommon.decode_tex md) texs)).
 Proof. exact e2e_read_bch. Qed.
 Theorem C12_e2e_read_cgfx : forall mc md S p loc f texs S',
@@ -517,9 +561,9 @@ Proof. exact e2e_read_tpl. Qed.
 (* on C19's supported textures: the packed textures decoded, by name (bch / ctpk / cgfx) or in order (tpl) *)
 Theorem C12_e2e_read_textures_supported : forall mc md S p loc f texs S',
   write_file mc S p f loc = (S', FOk tt) -> wfb f -> lenN f < 2 ^ 24 ->
-  (TexFormat.conforms_ctpk f texs -> Forall TexDecode.supported3ds texs ->
+  (TexFormat.conforms_ctpk f texs -> Forall TexDecode.supported3ds_f32 texs ->
      read_ctpk_textures md S' p loc = FOk (TexMap (tex_map (map TexDecode.decoded texs)))) /\
-  (TexFormat.conforms_bch f texs -> Forall TexDecode.supported3ds texs ->
+  (TexFormat.conforms_bch f texs -> Forall TexDecode.supported3ds_f32 texs ->
      read_bch_textures md S' p loc = FOk (TexMap (tex_map (map TexDecode.decoded texs)))) /\
   (TexFormat.conforms_cgfx f texs -> Forall TexDecode.supported3ds texs ->
      read_cgfx_textures md S' p loc = FOk (TexMap (tex_map (map TexDecode.decoded texs)))) /\
